@@ -7,6 +7,7 @@ import (
 	"strings"
 
 	"verif/core"
+	"verif/drive"
 	"verif/gen"
 	. "verif/refsem"
 )
@@ -158,4 +159,28 @@ func bindStr(p *Prog, b Binding) string {
 		}
 	}
 	return strings.TrimSpace(sb.String())
+}
+
+// runOnceOrTwice runs the single-command program on argv. For one case in twelve (programs without env-backed
+// options: an option set by the user loses its environment fallback for later runs, a documented side effect) the same
+// application object is first run on another command line: acceptance must not depend on what the object parsed before.
+func runOnceOrTwice(c *core.Ctx, p *Prog, argv []string, cfg gen.Cfg) *drive.Obs {
+	second := c.R.Intn(12) == 0
+	for _, o := range p.Opts {
+		if o.EnvSet {
+			second = false
+		}
+	}
+	if !second {
+		return drive.Run(drive.Single(p), argv)
+	}
+	drive.Quiet()
+	first := gen.Argv(c.R, p, cfg)
+	if hasHelp(first) {
+		first = nil
+	}
+	b := drive.Build(drive.Single(p))
+	b.Run(first)
+	c.Inc("second_run_on_same_object")
+	return b.Run(argv)
 }
